@@ -8,6 +8,7 @@ from depsim.runner import Violation, add_set, bump, digest
 
 class C09(ParserSessionProp):
     id = 'C09'
+    scale_every = {'quick': 300, 'thorough': 100}
     families = FAMILIES_ALL
     max_len = 10
     fault_classes = ('none', 'inband')
